@@ -1347,6 +1347,10 @@ class Converter:
                 # In this case, we create a copy of y, treating the statement as
                 # shorthand for "x = op.Identity(y)".
                 onnx_var = self._emit_copy(onnx_var, pv)
+            elif any(onnx_var is other for other in self._current_fn.outputs):
+                # Two state variables are bound to the same value (b = a):
+                # the outputs of a graph must be distinct.
+                onnx_var = self._emit_copy(onnx_var, pv)
             self._current_fn.outputs.append(onnx_var)
         body = self._exit_scope()
         inputs = [o_loop_bound, o_loop_condition] + [
